@@ -9,13 +9,16 @@ use sfs_core::input::{genotype::{self, Genotype, Skipped}, sample::{Population, 
 // project     : N | shape:a,b | ind:a,b
 // records     : contig~pos~gt,gt,gt ; ...     (gt strings for .cli; codes 0 1 2 m x p for .mem)   corrupt: contig~pos~!kind
 
+pub const FIFO_MARK: &str = "\u{1}fifo";
 pub fn parse_samples(s: &str) -> Option<(bool, Vec<(String, Option<String>)>)> {
     if s == "N" { return None; }
-    let file = s.starts_with("S:");
+    // `s:` inline list, `S:` samples file, `F:` samples file that is a named pipe (marked by a sentinel item)
+    let file = s.starts_with("S:") || s.starts_with("F:");
     let body = &s[2..];
-    let items = if body.is_empty() { vec![] } else {
+    let mut items: Vec<(String, Option<String>)> = if body.is_empty() { vec![] } else {
         body.split(',').map(|it| match it.split_once('=') { Some((k, v)) => (k.to_string(), Some(v.to_string())), None => (it.to_string(), None) }).collect()
     };
+    if s.starts_with("F:") { items.push((FIFO_MARK.to_string(), None)); }
     Some((file, items))
 }
 
@@ -126,7 +129,7 @@ pub fn container_bytes(cs: &CallSet, container: &str, layout: u64) -> Option<Vec
 fn raw_bcf(cs: &CallSet, text: &[u8]) -> Option<Vec<u8>> {
     let ploidy = |g: &str| g.matches(|c| c == '/' || c == '|').count();
     let uniform = cs.recs.iter().all(|r| r.gts.windows(2).all(|w| ploidy(&w[0]) == ploidy(&w[1])));
-    if cs.extras && uniform { vcf::to_raw_bcf(text).or_else(|| vcf::raw_bcf_simple(cs)) } else { vcf::raw_bcf_simple(cs) }
+    if (cs.extras || cs.wide % 2 == 1) && uniform { vcf::to_raw_bcf(text).or_else(|| vcf::raw_bcf_simple(cs)) } else { vcf::raw_bcf_simple(cs) }
 }
 
 fn create_args(samples: &Option<(bool, Vec<(String, Option<String>)>)>, project: &Option<(bool, Vec<usize>)>, strict: bool, precision: Option<usize>, threads: usize,
@@ -135,8 +138,18 @@ fn create_args(samples: &Option<(bool, Vec<(String, Option<String>)>)>, project:
     if let Some((file, items)) = samples {
         if *file {
             let path = format!("{work}/tmp/{uniq}.samples");
-            let body: String = items.iter().map(|(k, v)| match v { Some(p) => format!("{k}\t{p}\n"), None => format!("{k}\n") }).collect();
-            std::fs::write(&path, body).unwrap(); files.push(path.clone());
+            let fifo = items.iter().any(|(k, _)| k == FIFO_MARK);
+            let body: String = items.iter().filter(|(k, _)| k != FIFO_MARK).map(|(k, v)| match v { Some(p) => format!("{k}\t{p}\n"), None => format!("{k}\n") }).collect();
+            if fifo {
+                // the samples file is a named pipe (as with `-S <(cut -f1,2 meta.tsv)`): not a regular file, readable once
+                let _ = std::fs::remove_file(&path);
+                if std::process::Command::new("mkfifo").arg(&path).status().map(|s| s.success()).unwrap_or(false) {
+                    let p2 = path.clone();
+                    // write-only open blocks until the reader has opened the pipe; the writer is detached (a run that never opens the list must not hang the harness)
+                    std::thread::spawn(move || { use std::io::Write; if let Ok(mut f) = std::fs::OpenOptions::new().write(true).open(&p2) { let _ = f.write_all(body.as_bytes()); } });
+                } else { std::fs::write(&path, body).unwrap(); }
+            } else { std::fs::write(&path, body).unwrap(); }
+            files.push(path.clone());
             args.push("-S".into()); args.push(path);
         } else {
             args.push("-s".into());
@@ -217,7 +230,7 @@ fn uniq_of(a: &[&str]) -> String {
 /// `<prop>.cli container transport threads layout extras cols samples project strict precision records`
 pub fn eval_cli(ctx: &Ctx, a: &[&str]) -> Option<String> {
     let spec = CliSpec { container: a[0], transport: a[1], threads: a[2].parse().ok()?, layout: a[3].parse().ok()? };
-    let cs = CallSet { cols: a[5].split(',').map(|s| s.to_string()).collect(), recs: parse_records(a[10]), extras: a[4] == "1" };
+    let cs = CallSet { cols: a[5].split(',').map(|s| s.to_string()).collect(), recs: parse_records(a[10]), extras: a[4] == "1", wide: a[4].strip_prefix('w').and_then(|x| x.parse().ok()).unwrap_or(0) };
     let samples = parse_samples(a[6]);
     let project = parse_project(a[7]);
     let precision = if a[9] == "-" { None } else { a[9].parse().ok() };
@@ -249,7 +262,7 @@ pub fn bytes_case(cs: &CallSet, container: &str, layout: u64, cols: &str, sample
 
 /// `c12.same extras cols samples project strict precision records` : all containers x transports x threads x layouts x repeats
 pub fn eval_same(ctx: &Ctx, a: &[&str]) -> Option<String> {
-    let cs = CallSet { cols: a[1].split(',').map(|s| s.to_string()).collect(), recs: parse_records(a[6]), extras: a[0] == "1" };
+    let cs = CallSet { cols: a[1].split(',').map(|s| s.to_string()).collect(), recs: parse_records(a[6]), extras: a[0] == "1", wide: a[0].strip_prefix('w').and_then(|x| x.parse().ok()).unwrap_or(0) };
     let samples = parse_samples(a[2]);
     let project = parse_project(a[3]);
     let precision = if a[5] == "-" { None } else { a[5].parse().ok() };
